@@ -118,6 +118,9 @@ def ascending_view(c, X, Y):
     """(x, y) read in increasing-x order whatever the storage order."""
     n = X.n
     inc = X[0] < X[n - 1]
+    known = c.decide(inc) if hasattr(c, 'decide') else None
+    if known is not None:
+        inc = known          # the storage order is already fixed on this path: no case split in the clause
 
     class V(object):
         def __init__(self, A):
@@ -168,8 +171,12 @@ class IntegrateSubset(Contract):
             return {}
         X, Y = old.A(a.x), old.A(a.y)
         n = X.n
-        XA, YA = ascending_view(old, X, Y)
-        lo, hi = smin(a.xmin, a.xmax), smax(a.xmin, a.xmax)
+        XA, YA = ascending_view(c, X, Y)           # (decided with the facts of the path taken)
+        swapped = c.decide(a.xmin > a.xmax)
+        if swapped is None:
+            lo, hi = smin(a.xmin, a.xmax), smax(a.xmin, a.xmax)
+        else:
+            lo, hi = (a.xmax, a.xmin) if swapped else (a.xmin, a.xmax)
         calls = [e for e in c.st.events if e[0] == 'call' and e[1] == UTIL + 'integrate.integrate']
         rets = [e for e in c.st.events if e[0] == 'ret' and e[1] == UTIL + 'integrate.integrate']
         if not calls:
